@@ -207,6 +207,51 @@ def eval_case(case):
     return out, viol
 
 
+def hunt_widths(job):
+    """ECDSA signatures whose r or s has leading zero bytes occur once in 128 groups: sign `n` single-transaction groups that
+    differ only in the counter and judge each signature with the independent verifier (fixed-width r || s is part of the
+    operation format).  Returns (signed, short, violations)."""
+    from harness import common
+    common.use_repo()
+    from harness.stubctx_c23 import StubContext
+    from pytezos.crypto.key import Key
+    from pytezos.operation.group import OperationGroup
+    curve, secret, chain, branch, start, n = job
+    key = Key.from_secret_exponent(secret, curve.encode())
+    pub, src = key.public_point, key.public_key_hash()
+    viol, short, signed_n = [], 0, 0
+    for c in range(start, start + n):
+        contents = [{'kind': 'transaction', 'source': src, 'fee': '1000', 'counter': str(c), 'gas_limit': '10000', 'storage_limit': '0',
+                     'amount': '1', 'destination': src}]
+        base = {'curve': curve, 'secret': secret.hex(), 'kinds': ['transaction'], 'chain': chain, 'shape': 'width-hunt', 'counter': c}
+        g = OperationGroup(context=StubContext(key), contents=contents, chain_id=chain, branch=branch)
+        try:
+            forged = bytes.fromhex(g.forge())
+            sig = g.sign().signature
+        except Exception as e:
+            viol.append((f'group-sign-raises:{curve}', f'OperationGroup.sign() raised ({K.canon_exc(e)}) for a transaction with counter {c}', base))
+            continue
+        signed_n += 1
+        raw = K.tz_decode('sig', sig) if sig.startswith('sig') else None
+        if raw is None or len(raw) != 64:
+            viol.append((f'group-signature-form:{curve}', f'{sig[:14]}… is not a 64-byte sig (counter {c})', {**base, 'signature': sig}))
+            continue
+        if raw[0] == 0 or raw[32] == 0:
+            short += 1
+        msg = b'\x03' + forged
+        if not K.indep_verify(curve, pub, msg, raw):
+            viol.append((f'group-signature-invalid:{curve}', f'independent verifier rejects the signature over 0x03 ++ forged bytes (transaction, counter {c}; '
+                         f'r = {raw[:32].hex()}, s = {raw[32:].hex()})', {**base, 'signature': sig, 'message': msg.hex()}))
+            continue
+        try:
+            ok = key.verify(sig, msg) is True
+        except Exception:
+            ok = False
+        if not ok:
+            viol.append((f'group-signature-invalid:{curve}', f'Key.verify rejects the group signature (transaction, counter {c})', {**base, 'signature': sig}))
+    return signed_n, short, viol
+
+
 def run(ctx):
     import time
     st = {}
@@ -272,6 +317,22 @@ def run(ctx):
     with multiprocessing.get_context('fork').Pool(workers) as pool:
         results = pool.map(eval_case, [cases[i] for i in order], chunksize=1)
     timing['real_code+oracles_s'] = round(time.time() - t0, 1)
+    # ---- signature-width hunt (ECDSA curves): r or s with a leading zero byte, 1 group in 128
+    per, jobs = (100, 8) if quick else (250, 16)
+    hunt_jobs = [(curve, random_secret(rng, curve), b58('Net', rbytes(rng, 4)), b58('B', rbytes(rng, 32)), 1 + j * per, per)
+                 for curve in ('sp', 'p2') for j in range(jobs)]
+    t0 = time.time()
+    with multiprocessing.get_context('fork').Pool(workers) as pool:
+        hunted = pool.map(hunt_widths, hunt_jobs, chunksize=1)
+    timing['width_hunt_s'] = round(time.time() - t0, 1)
+    for (curve, *_), (signed_n, short, viol) in zip(hunt_jobs, hunted):
+        ctx.evaluations += signed_n
+        ctx.hist.setdefault('width_hunt_signed', {})
+        ctx.hist['width_hunt_signed'][curve] = ctx.hist['width_hunt_signed'].get(curve, 0) + signed_n
+        ctx.hist.setdefault('width_hunt_short_r_or_s', {})
+        ctx.hist['width_hunt_short_r_or_s'][curve] = ctx.hist['width_hunt_short_r_or_s'].get(curve, 0) + short
+        for key, what, replay in viol[:3]:
+            ctx.violation(key, what, replay)
     by_index = dict(zip(order, results))
     records = []
     for i in range(len(cases)):
